@@ -130,8 +130,8 @@ fn kind(e: &Error) -> &'static str {
 // ------------------------------------------------------------------------------------------------
 // running the real readers
 
-/// Drive one reader the way a consumer does: `next` until the first `None` or panic, `extra` more
-/// calls after the first error, give up (`hang`) after |input| + 3 + extra calls.
+/// Drive one reader: `next` until a panic, `extra` more calls after the first error or end of input,
+/// give up (`hang`) after |input| + 3 + 2·extra calls.
 fn consume<R, I: Iterator<Item = Result<R, Error>>>(
     mk: impl FnOnce() -> I,
     dump: impl Fn(&R) -> String,
@@ -145,7 +145,7 @@ fn consume<R, I: Iterator<Item = Result<R, Error>>>(
     };
     let mut out: Vec<String> = Vec::new();
     let mut after_err: Option<usize> = None;
-    let mut fuel = len + 3 + extra;
+    let mut fuel = len + 3 + 2 * extra;
     loop {
         if fuel == 0 {
             out.push("hang".into());
@@ -161,8 +161,13 @@ fn consume<R, I: Iterator<Item = Result<R, Error>>>(
                 break;
             }
             Ok(None) => {
+                // end of input is an answer like any other: keep asking `extra` more times (a request
+                // after the end must not panic either, and must keep saying `end`)
                 out.push("end".into());
-                break;
+                after_err = Some(match after_err {
+                    None => extra,
+                    Some(n) => n.saturating_sub(1),
+                });
             }
             Ok(Some(Ok(r))) => {
                 out.push(if detail { format!("R {}", dump(&r)) } else { "rec".into() });
@@ -763,8 +768,10 @@ fn gen_widths(rng: &mut Rng, big: bool) -> usize {
     if big {
         rng.range(1, 40)
     } else {
-        match rng.below(8) {
-            0 => rng.range(1, 40),
+        match rng.below(24) {
+            0 | 1 | 2 => rng.range(1, 40),
+            // three-digit position labels / long rows: widths around and above 100
+            3 => rng.range(95, 130),
             _ => rng.range(1, 8),
         }
     }
